@@ -99,13 +99,18 @@ def direct_oracles(script, cache_vals, cfg, want):
     try:
         tsh._Capture.top = None
         tsh._Capture.depth = 0
-        try:
-            F.run_script(script, cache_vals, cfg.contract_objs(log), cfg.flags, cfg.plugins(log),
-                         cfg.max_items, cfg.max_item_size, cfg.limit)
-        except BaseException as e:
-            esc = e
+        with tsh.Watch():
+            try:
+                F.run_script(script, cache_vals, cfg.contract_objs(log), cfg.flags, cfg.plugins(log),
+                             cfg.max_items, cfg.max_item_size, cfg.limit)
+            except tsh.ImplTimeout:
+                raise
+            except BaseException as e:
+                esc = e
     finally:
         mon.uninstall()
+    if tsh.Watch.fired:
+        return {'C07': ['the script did not end within the per-case watchdog (%.0f s)' % tsh.Watch().seconds]}
     tape, stack, cache = tsh._Capture.top
     if 'C07' in want:
         v = list(mon.violations)
@@ -136,13 +141,21 @@ def run_task(task):
     digests = set()
     nontrivial = 0
     t0 = time.time()
+    budget = float(os.environ.get('VERIF_STREAM_BUDGET', '150'))
     for i in range(n):
+        if time.time() - t0 > budget:
+            stats['stopped-on-time-budget'] += 1      # a (changed) implementation may be very slow: report what was covered
+            break
         cfg = rand_cfg(rng, profile)
         g = gen.Gen(rng, contracts=cfg.contracts, max_depth=4)
         prog = g.program(1, 9) if rng.random() < 0.93 else g.raw_program()
         cv = g.cache_vals()
         st, iline, mline = tsh.compare_script(model, prog, cv, cfg)
         stats[st] += 1
+        if iline.startswith('timeout'):
+            stats['impl-timeout'] += 1
+            if stats['impl-timeout'] > 5:
+                break                      # the implementation hangs repeatedly: stop the stream, report what we have
         out = iline.split(' | ')[0]
         outcomes[out] += 1
         sizes[min(len(prog) // 16, 8)] += 1
@@ -167,7 +180,7 @@ def run_task(task):
             samples.append(dict(case=case, impl=iline[:300]))
     model.close()
     return dict(stats=dict(stats), outcomes=dict(outcomes), sizes=dict(sizes), disagreements=disagreements,
-                violations=dict(violations), samples=samples, distinct_nontrivial=nontrivial, n=n,
+                violations=dict(violations), samples=samples, distinct_nontrivial=nontrivial, n=sum(v for k, v in stats.items() if k in ('agree', 'differ') or k.startswith('skip-')),
                 oracle_calls=model.oracle_calls, wall=time.time() - t0)
 
 
